@@ -500,6 +500,29 @@ def check_r123(fx, rep):
                 for m, _ in F.walk(n["body"]):
                     if m.get("k") == "Binary" and m["op"] in ("Le", "Lt") and mentions_word_bits(T.term(m, T.Env()), fx):
                         has_end = True
+        # the flag as the outcome of one pass over the spans (`spans.iter().try_fold(0, |last, span| ..).is_some()`, `.all(|span| ..)`):
+        # both tests sit in the closure that sees EVERY span on its own - a chain that pairs, skips or filters elements
+        # (`tuple_windows`, `zip`, `skip`, ..) leaves some span untested and is not accepted
+        for n, nps in F.walk(scope):
+            if n.get("s") == "Let" and "init" in n and n["pat"].get("p") == "Bind" and n["pat"]["local"] in flag_locals and n["pat"]["local"] not in mutated:
+                chain, cur = [], F.strip(n["init"])
+                while cur.get("k") == "MethodCall":
+                    chain.append(cur)
+                    cur = F.strip(cur["recv"])
+                meths = [c_["method"] for c_ in chain]
+                per_element = bool(meths) and not any(m_ in ("tuple_windows", "windows", "zip", "skip", "take", "step_by", "chunks", "filter", "skip_while", "take_while", "rev") for m_ in meths) and any(m_ in ("try_fold", "all", "fold", "try_for_each") for m_ in meths)
+                if per_element:
+                    for c_ in chain:
+                        for a_ in c_["args"]:
+                            if F.strip(a_).get("k") != "Closure":
+                                continue
+                            for m, _ in F.walk(F.strip(a_)["body"]):
+                                if m.get("k") == "Binary" and m["op"] in ("Le", "Lt", "Ge", "Gt"):
+                                    if mentions_word_bits(T.term(m, T.Env()), fx):
+                                        has_end = True
+                                        assigns_false = True
+                                    else:
+                                        has_overlap = True
         rep.oblige(
             bool(flag_locals) and has_overlap,
             "R12.3",
